@@ -13,6 +13,7 @@ type GenOpts struct {
 	MaxItems   int
 	Mutation   bool
 	RootFields int // 0 = random
+	NoAbstract bool // never declare a position with an interface or union type
 }
 
 var errMsgs = []string{"boom", "nope", "E3"}
@@ -20,6 +21,14 @@ var errMsgs = []string{"boom", "nope", "E3"}
 // GenShape draws an object shape.
 func GenShape(r *hx.Rand, o GenOpts, depth int, nfields int) *TShape {
 	t := &TShape{Kind: "object"}
+	if depth > 0 && !o.NoAbstract {
+		switch r.Intn(8) {
+		case 0:
+			t.Abstract = "iface"
+		case 1:
+			t.Abstract = "union"
+		}
+	}
 	if nfields == 0 {
 		nfields = r.Range(1, o.MaxFields)
 	}
@@ -163,6 +172,58 @@ func GenSchedule(r *hx.Rand, rounds int) []uint64 {
 // Shrinks returns smaller variants of the case (each a deep copy).
 func Shrinks(c *Case) []*Case {
 	var out []*Case
+	// presentation: the plain document; object types instead of interfaces / unions
+	if c.Syntax != 0 {
+		d := c.Clone()
+		d.Syntax = 0
+		out = append(out, d)
+		for _, s := range []uint64{1, 2, 3, 4, 5, 6, 7, 8} {
+			if s < c.Syntax {
+				d := c.Clone()
+				d.Syntax = s
+				out = append(out, d)
+			}
+		}
+	}
+	{
+		n := 0
+		var count func(t *TShape)
+		count = func(t *TShape) {
+			if t == nil {
+				return
+			}
+			if t.Kind == "object" && t.Abstract != "" {
+				n++
+			}
+			count(t.Elem)
+			for _, f := range t.Fields {
+				count(f.T)
+			}
+		}
+		count(c.Shape)
+		for k := 0; k < n; k++ {
+			d := c.Clone()
+			i := 0
+			var clear func(t *TShape)
+			clear = func(t *TShape) {
+				if t == nil {
+					return
+				}
+				if t.Kind == "object" && t.Abstract != "" {
+					if i == k {
+						t.Abstract = ""
+					}
+					i++
+				}
+				clear(t.Elem)
+				for _, f := range t.Fields {
+					clear(f.T)
+				}
+			}
+			clear(d.Shape)
+			out = append(out, d)
+		}
+	}
 	// schedule: drop a round, or make a round fulfil everything / only the first
 	for i := range c.Schedule {
 		d := c.Clone()
